@@ -2,6 +2,8 @@ package main
 
 import (
 	"bufio"
+	"bytes"
+	"compress/gzip"
 	"encoding/json"
 	"fmt"
 	"io"
@@ -94,6 +96,7 @@ func faultBackend(ln net.Listener) {
 type faultCase struct {
 	Faults   []string `json:"faults"`
 	Strategy string   `json:"strategy"`
+	Solo     bool     `json:"solo"` // run alone (no other exchange in the process), healthy exchange right after the fault
 	F        struct {
 		CB      bool `json:"cb"`
 		RL      bool `json:"rl"`
@@ -156,17 +159,27 @@ func oneRequestWithin(addr, fault string, bound time.Duration) map[string]any {
 		if fault == "stall_body_upgrade" {
 			extra = "Connection: Upgrade\r\nUpgrade: x-bogus\r\n"
 		}
-		fmt.Fprintf(conn.c, "GET /f HTTP/1.1\r\nHost: h\r\nX-Fault: %s\r\n%s\r\n", fault, extra)
+		// clients accept gzip (the gzip plugin, where configured, is then active on the exchange)
+		fmt.Fprintf(conn.c, "GET /f HTTP/1.1\r\nHost: h\r\nAccept-Encoding: gzip\r\nX-Fault: %s\r\n%s\r\n", fault, extra)
 		resp, err := http.ReadResponse(conn.br, &http.Request{Method: "GET"})
 		if err != nil {
 			done <- "closed"
 			return
 		}
-		_, rerr := io.ReadAll(resp.Body)
+		body, rerr := io.ReadAll(resp.Body)
 		resp.Body.Close()
-		if rerr != nil {
+		if rerr == nil && resp.Header.Get("Content-Encoding") == "gzip" {
+			if zr, err := gzip.NewReader(bytes.NewReader(body)); err == nil {
+				body, _ = io.ReadAll(zr)
+			}
+		}
+		switch {
+		case rerr != nil:
 			done <- fmt.Sprintf("status-%d-truncated", resp.StatusCode)
-		} else {
+		case fault == "none" && resp.StatusCode == 200 && string(body) != "ok":
+			// a healthy exchange must carry the healthy backend's body and nothing else
+			done <- fmt.Sprintf("wrongbody-%d-bytes", len(body))
+		default:
 			done <- fmt.Sprintf("status-%d", resp.StatusCode)
 		}
 	}()
@@ -227,7 +240,9 @@ func runFault(idx int, raw json.RawMessage, seed int64) map[string]any {
 		reqs = append(reqs, r)
 	}
 	// let ejection windows (1 s) and the breaker timeout (1 s) pass
-	time.Sleep(1300 * time.Millisecond)
+	if !c.Solo {
+		time.Sleep(1300 * time.Millisecond)
+	}
 	probe := func() int {
 		r := oneRequestWithin(h.addr, "none", bound)
 		var st int
